@@ -480,6 +480,7 @@ func extractCloseShapes() {
 		{"transport/tlstcp", "dialer", "Close"}, {"transport/tlstcp", "listener", "Close"},
 		{"transport/ipc", "dialer", "Close"}, {"transport/ipc", "listener", "Close"},
 		{"transport/ws", "listener", "Close"}, {"transport/ws", "listener", "Accept"}, {"transport/ws", "listener", "ServeHTTP"},
+		{"transport/ws", "dialer", "Close"}, {"transport/ws", "dialer", "netDial"},
 	} {
 		p := loadPkg(fn.pkg)
 		fd := p.fn(fn.recv, fn.name)
